@@ -6,6 +6,7 @@ import (
 	"os"
 	"path/filepath"
 	"testing"
+	"time"
 
 	"pgregory.net/rapid"
 )
@@ -181,7 +182,7 @@ func replayOne(path string) (*Violation, error) {
 	}
 	s, ok := worldSpecs[head.Prop]
 	if head.Prop == "C09" {
-		s, ok = c09Instance(specC09()), true // the twin is per-history state
+		s, ok = specC09(), true
 	}
 	if !ok {
 		return nil, fmt.Errorf("no replayer for property %q", head.Prop)
@@ -190,28 +191,134 @@ func replayOne(path string) (*Violation, error) {
 	if err := json.Unmarshal(rf.History, &h); err != nil {
 		return nil, err
 	}
+	v, _, err := replayHistory(s, h)
+	return v, err
+}
+
+// replayHistory runs a recorded World history under the observers of spec s; returns the first violation and the
+// id of the open known finding it is an instance of ("" = none).
+func replayHistory(s *worldSpec, h History) (v *Violation, known string, err error) {
+	if h.Prop == "C09" {
+		s = c09Instance(specC09()) // the twin is per-history state
+	}
 	w, err := NewWorld(h.Prop, h.Backend, h.Cfg, s.Obs)
 	if err != nil {
-		return nil, err
+		return nil, "", err
 	}
 	defer w.Close()
+	done := func(v *Violation) (*Violation, string, error) {
+		if v != nil && s.Known != nil {
+			if id := s.Known(w, v); id != "" && Open(id) {
+				return v, id, nil
+			}
+		}
+		return v, "", nil
+	}
 	w.rememberInitialCfg()
 	w.trackIndex(Op{Kind: "reopen"})
 	for _, op := range h.Ops {
 		if v := w.Apply(op); v != nil {
-			return v, nil
+			return done(v)
 		}
 		w.trackIndex(op)
 		if v := w.Observe(); v != nil {
-			return v, nil
+			return done(v)
 		}
 		if s.After != nil {
 			if v := s.After(w, op); v != nil {
-				return v, nil
+				return done(v)
 			}
 		}
 	}
-	return nil, nil
+	return nil, "", nil
+}
+
+// minimizeHistory: delta debugging over the op list of a failing World history (rapid shrinks such histories
+// poorly: every step is drawn from a state-dependent generator). A candidate is kept if it still fails at the SAME
+// observer and is not an instance of an open known finding. Deterministic; bounded by a time budget.
+func minimizeHistory(s *worldSpec, h History, v *Violation, budget time.Duration) (History, *Violation, int) {
+	deadline := time.Now().Add(budget)
+	tries := 0
+	fails := func(ops []Op) *Violation {
+		tries++
+		c := h
+		c.Ops = ops
+		cv, known, err := replayHistory(s, c)
+		if err != nil || cv == nil || known != "" || cv.Obs != v.Obs {
+			return nil
+		}
+		return cv
+	}
+	ops := append([]Op{}, h.Ops...)
+	best := v
+	n := len(ops) / 2
+	if n < 1 {
+		n = 1
+	}
+	for len(ops) > 0 && time.Now().Before(deadline) {
+		improved := false
+		for end := len(ops); end > 0 && time.Now().Before(deadline); {
+			start := end - n
+			if start < 0 {
+				start = 0
+			}
+			cand := append(append([]Op{}, ops[:start]...), ops[end:]...)
+			if cv := fails(cand); cv != nil {
+				ops, best, improved = cand, cv, true
+			}
+			end = start
+		}
+		if n > 1 {
+			n /= 2
+		} else if !improved {
+			break
+		}
+	}
+	h.Ops = ops
+	return h, best, tries
+}
+
+// TestMinimize rewrites $VERIF_REPLAY (a World history that fails) with its minimized form.
+func TestMinimize(t *testing.T) {
+	registerAllSpecs()
+	p := os.Getenv("VERIF_REPLAY")
+	if p == "" {
+		t.Skip("no file")
+	}
+	b, err := os.ReadFile(p)
+	if err != nil {
+		t.Fatal(err)
+	}
+	var rf replayFile
+	if err := json.Unmarshal(b, &rf); err != nil || len(rf.History) == 0 {
+		t.Skip("not a replay file with a history")
+	}
+	var head struct {
+		Prop string `json:"property"`
+		Kind string `json:"kind"`
+	}
+	_ = json.Unmarshal(rf.History, &head)
+	s, ok := worldSpecs[head.Prop]
+	if head.Prop == "C09" {
+		s, ok = specC09(), true
+	}
+	if !ok || head.Kind != "" {
+		t.Skip("not a World history")
+	}
+	var h History
+	if err := json.Unmarshal(rf.History, &h); err != nil || len(h.Ops) == 0 {
+		t.Skip("not a World history")
+	}
+	v, known, err := replayHistory(s, h)
+	if err != nil || v == nil || known != "" {
+		t.Skipf("does not fail on replay (%v, known=%q)", err, known)
+	}
+	m, mv, tries := minimizeHistory(s, h, v, 25*time.Second)
+	out, _ := json.MarshalIndent(map[string]any{"history": m, "violation": mv, "minimized": map[string]int{"ops_before": len(h.Ops), "ops_after": len(m.Ops), "replays": tries}}, "", " ")
+	if err := os.WriteFile(p, out, 0o644); err != nil {
+		t.Fatal(err)
+	}
+	fmt.Printf("MINIMIZED path=%s ops %d -> %d (%d replays)\n", p, len(h.Ops), len(m.Ops), tries)
 }
 
 // TestReplay replays $VERIF_REPLAY (one file) or every file listed in $VERIF_REPLAY_LIST (JSON list of
